@@ -45,14 +45,48 @@ func init() {
 			}
 			return strings.Join(res, "\n")
 		}
+		for _, t := range c10TwoTargets() {
+			sc, err := t.twoHandleScenario(99)
+			if err != nil || sc.Name != hc.Scenario {
+				continue
+			}
+			var res []string
+			for i := 1; i <= len(hc.Indices); i++ {
+				for _, v := range sc.Run(hc.Indices[:i]).Viols {
+					res = append(res, v.Sig+": "+v.Msg)
+				}
+			}
+			if len(res) == 0 {
+				return "holds"
+			}
+			return strings.Join(res, "\n")
+		}
 		return "unknown scenario " + hc.Scenario
 	}
 }
 
+func c10TwoTargets() []c10Target {
+	var ts []c10Target
+	for _, fs := range []struct {
+		n string
+		c int
+	}{{"fat12", 512}, {"fat16", 1024}, {"fat32", 512}, {"ext4", 1024}, {"iso9660", 2048}, {"squashfs", 4096}, {"squashfs-nofrag", 4096}} {
+		for _, rnd := range []bool{false, true} {
+			if rnd && !strings.HasPrefix(fs.n, "squashfs") {
+				continue
+			}
+			ts = append(ts, c10Target{FS: fs.n, Size: 2*fs.c + 3, C: fs.c, Other: fs.c + fs.c/2 + 9, Random: rnd})
+		}
+	}
+	return ts
+}
+
 type c10Target struct {
-	FS   string // fat12 fat16 fat32 ext4 iso9660 squashfs squashfs-nofrag
-	Size int
-	C    int // cluster / block size
+	FS     string // fat12 fat16 fat32 ext4 iso9660 squashfs squashfs-nofrag
+	Size   int
+	C      int  // cluster / block size
+	Other  int  // size of the second file (0 = C+9)
+	Random bool // incompressible contents (squashfs then stores the blocks as they are)
 }
 
 type rsLetter struct {
@@ -88,9 +122,33 @@ func c10Letters(size, c int) []rsLetter {
 
 // opener returns a function that opens a fresh handle on a fresh filesystem object over the shared image.
 func (t c10Target) opener() (func() (filesystem.File, error), []byte, error) {
+	openFS, data, _, err := t.fsOpener()
+	if err != nil {
+		return nil, nil, err
+	}
+	return func() (filesystem.File, error) {
+		fs, err := openFS()
+		if err != nil {
+			return nil, err
+		}
+		return fs.OpenFile("DATA.BIN", os.O_RDONLY)
+	}, data, nil
+}
+
+// fsOpener builds the image once and returns a function that opens a fresh filesystem object over it, the contents of
+// DATA.BIN and the contents of OTHER.BIN.
+func (t c10Target) fsOpener() (func() (filesystem.FileSystem, error), []byte, []byte, error) {
 	data := patternBytes(t.Size%97+3, t.Size)
+	osz := t.C + 9
+	if t.Other > 0 {
+		osz = t.Other
+	}
+	other := patternBytes(5, osz)
+	if t.Random {
+		data, other = randomBytes(uint64(t.Size)+77, t.Size), randomBytes(uint64(osz)+78, osz)
+	}
 	name := "DATA.BIN"
-	tree := &treeSpec{Files: map[string][]byte{name: data, "OTHER.BIN": patternBytes(5, t.C+9)}}
+	tree := &treeSpec{Files: map[string][]byte{name: data, "OTHER.BIN": other}}
 	switch {
 	case strings.HasPrefix(t.FS, "fat"):
 		cfg := fatCfg{Type: 12, Size: 64 << 10, Start: 512}
@@ -102,7 +160,7 @@ func (t c10Target) opener() (func() (filesystem.File, error), []byte, error) {
 		}
 		s, err := newFatSys(cfg, "none")
 		if err != nil {
-			return nil, nil, err
+			return nil, nil, nil, err
 		}
 		for _, op := range []struct {
 			p string
@@ -110,28 +168,22 @@ func (t c10Target) opener() (func() (filesystem.File, error), []byte, error) {
 		}{{"OTHER.BIN", tree.Files["OTHER.BIN"]}, {name, data}} {
 			f, err := s.fs.OpenFile(op.p, os.O_CREATE|os.O_RDWR)
 			if err != nil {
-				return nil, nil, err
+				return nil, nil, nil, err
 			}
 			if len(op.d) > 0 {
 				if _, err := f.Write(op.d); err != nil {
-					return nil, nil, err
+					return nil, nil, nil, err
 				}
 			}
 			f.Close()
 		}
 		dev := s.dev
-		return func() (filesystem.File, error) {
-			fs, err := fatRead(cfg, dev, true)
-			if err != nil {
-				return nil, err
-			}
-			return fs.OpenFile(name, os.O_RDONLY)
-		}, data, nil
+		return func() (filesystem.FileSystem, error) { return fatRead(cfg, dev, true) }, data, other, nil
 	case t.FS == "ext4-frag":
 		// the same file written in three pieces interleaved with another file, so that it has several extents
 		img, fs, err := buildExt4(&treeSpec{}, 2<<20, 1<<20, ext4SmallParams(2, true))
 		if err != nil {
-			return nil, nil, err
+			return nil, nil, nil, err
 		}
 		var werr error
 		if pm := guard(func() {
@@ -161,42 +213,24 @@ func (t c10Target) opener() (func() (filesystem.File, error), []byte, error) {
 				}
 			}
 		}); pm != "" {
-			return nil, nil, fmt.Errorf("%s", pm)
+			return nil, nil, nil, fmt.Errorf("%s", pm)
 		}
 		if werr != nil {
-			return nil, nil, werr
+			return nil, nil, nil, werr
 		}
-		return func() (filesystem.File, error) {
-			fs, err := img.open(true)
-			if err != nil {
-				return nil, err
-			}
-			return fs.OpenFile(name, os.O_RDONLY)
-		}, data, nil
+		return func() (filesystem.FileSystem, error) { return img.open(true) }, data, other, nil
 	case t.FS == "ext4":
 		img, _, err := buildExt4(tree, 2<<20, 1<<20, ext4SmallParams(2, true))
 		if err != nil {
-			return nil, nil, err
+			return nil, nil, nil, err
 		}
-		return func() (filesystem.File, error) {
-			fs, err := img.open(true)
-			if err != nil {
-				return nil, err
-			}
-			return fs.OpenFile(name, os.O_RDONLY)
-		}, data, nil
+		return func() (filesystem.FileSystem, error) { return img.open(true) }, data, other, nil
 	case t.FS == "iso9660":
 		img, err := buildISO(tree, iso9660.FinalizeOptions{RockRidge: true}, 2048, 0)
 		if err != nil {
-			return nil, nil, err
+			return nil, nil, nil, err
 		}
-		return func() (filesystem.File, error) {
-			fs, err := img.open(true)
-			if err != nil {
-				return nil, err
-			}
-			return fs.OpenFile(name, os.O_RDONLY)
-		}, data, nil
+		return func() (filesystem.FileSystem, error) { return img.open(true) }, data, other, nil
 	case t.FS == "squashfs-sparse":
 		// A file whose middle block is a hole (block size entry 0), as mksquashfs writes for runs of zeroes. The
 		// library's own Finalize never emits one, so the image is derived from one it wrote: three uncompressed,
@@ -208,7 +242,7 @@ func (t c10Target) opener() (func() (filesystem.File, error), []byte, error) {
 		only := &treeSpec{Files: map[string][]byte{name: b}}
 		img, err := buildSquash(only, squashfs.FinalizeOptions{NoFragments: true, NoCompressData: true, NoCompressInodes: true, NonSparse: true}, int64(c), 0)
 		if err != nil {
-			return nil, nil, err
+			return nil, nil, nil, err
 		}
 		entry := make([]byte, 4)
 		binary.LittleEndian.PutUint32(entry, uint32(c)|1<<24)
@@ -216,30 +250,17 @@ func (t c10Target) opener() (func() (filesystem.File, error), []byte, error) {
 		raw := img.Dev.Peek(0, int(img.Size))
 		at := bytes.Index(raw, pat)
 		if at < 0 || bytes.Index(raw[at+1:], pat) >= 0 {
-			return nil, nil, fmt.Errorf("n/a: block list of the three-block file not found exactly once")
+			return nil, nil, nil, fmt.Errorf("n/a: block list of the three-block file not found exactly once")
 		}
 		img.Dev.Poke([]byte{0, 0, 0, 0}, int64(at+4))
 		want := append(append(append([]byte{}, b[:c]...), make([]byte, c)...), b[c:2*c]...)
-		open := func() (filesystem.File, error) {
-			fs, err := img.open(true)
-			if err != nil {
-				return nil, err
-			}
-			return fs.OpenFile(name, os.O_RDONLY)
-		}
-		return open, want, nil
+		return func() (filesystem.FileSystem, error) { return img.open(true) }, want, nil, nil
 	default:
 		img, err := buildSquash(tree, squashfs.FinalizeOptions{NoFragments: t.FS == "squashfs-nofrag"}, 4096, 0)
 		if err != nil {
-			return nil, nil, err
+			return nil, nil, nil, err
 		}
-		return func() (filesystem.File, error) {
-			fs, err := img.open(true)
-			if err != nil {
-				return nil, err
-			}
-			return fs.OpenFile(name, os.O_RDONLY)
-		}, data, nil
+		return func() (filesystem.FileSystem, error) { return img.open(true) }, data, other, nil
 	}
 }
 
@@ -411,6 +432,128 @@ func (t c10Target) scenario(depth int) (explore.Scenario, error) {
 	return explore.Scenario{Name: name, Letters: names, Run: run, MaxDepth: depth, MaxStates: 60000}, nil
 }
 
+// twoHandleScenario: ONE filesystem object, two open handles (DATA.BIN and OTHER.BIN), used in turns. Each handle must
+// behave as if it were alone: what it returns is a function of its own cursor only. Explored to fixpoint over
+// (cursor, block of the last read) of both handles.
+func (t c10Target) twoHandleScenario(depth int) (explore.Scenario, error) {
+	name := fmt.Sprintf("two-handles/%s/size=%d+%d", t.FS, t.Size, t.Other)
+	if t.Random {
+		name += "/incompressible"
+	}
+	openFS, dataA, dataB, err := t.fsOpener()
+	if err != nil {
+		return explore.Scenario{Name: name}, err
+	}
+	type hl struct {
+		h    int // 0 = DATA.BIN, 1 = OTHER.BIN
+		kind string
+		n    int
+	}
+	var letters []hl
+	for h := 0; h < 2; h++ {
+		letters = append(letters, hl{h, "read", t.C/2 + 1}, hl{h, "read", t.C}, hl{h, "rewind", 0})
+	}
+	names := make([]string, len(letters))
+	for i, l := range letters {
+		names[i] = fmt.Sprintf("%s.%s(%d)", [...]string{"A", "B"}[l.h], l.kind, l.n)
+	}
+	datas := [2][]byte{dataA, dataB}
+	run := func(hist []uint16) explore.Outcome {
+		var out explore.Outcome
+		add := func(sig, msg string) {
+			out.Viols = append(out.Viols, explore.Viol{Sig: t.FS + "|two-handles|" + sig, Msg: fmt.Sprintf("%s after %v: %s", name, histNames(names, hist), msg)})
+		}
+		var fh [2]filesystem.File
+		var oerr error
+		if pm := guard(func() {
+			fs, e := openFS()
+			if e != nil {
+				oerr = e
+				return
+			}
+			if fh[0], oerr = fs.OpenFile("DATA.BIN", os.O_RDONLY); oerr != nil {
+				return
+			}
+			fh[1], oerr = fs.OpenFile("OTHER.BIN", os.O_RDONLY)
+		}); pm != "" || oerr != nil {
+			add("open", fmt.Sprintf("cannot open both files: %v %s", oerr, pm))
+			out.Prune = true
+			return out
+		}
+		var pos, lastBlock [2]int64
+		lastBlock = [2]int64{-1, -1}
+		for i, li := range hist {
+			l := letters[li]
+			last := i == len(hist)-1
+			data := datas[l.h]
+			size := int64(len(data))
+			if l.kind == "rewind" {
+				np, err := fh[l.h].Seek(0, io.SeekStart)
+				if last && (err != nil || np != 0) {
+					add("seek", fmt.Sprintf("Seek(0, Start) returned (%d, %v)", np, err))
+				}
+				pos[l.h] = 0
+				out.Class = "rewind"
+				continue
+			}
+			buf := make([]byte, l.n)
+			var k int
+			var err error
+			if pm := guard(func() { k, err = fh[l.h].Read(buf) }); pm != "" {
+				if last {
+					add("read|"+pm, pm)
+				}
+				out.Prune = true
+				return out
+			}
+			rem := size - pos[l.h]
+			lim := int64(l.n)
+			if rem < lim {
+				lim = rem
+			}
+			switch {
+			case int64(k) > lim || k < 0:
+				if last {
+					add("read|more-than-remain", fmt.Sprintf("handle %d at %d of %d: Read(%d) returned %d", l.h, pos[l.h], size, l.n, k))
+				}
+				out.Prune = true
+				return out
+			case k > 0 && string(buf[:k]) != string(data[pos[l.h]:pos[l.h]+int64(k)]):
+				if last {
+					add("read|wrong-bytes", fmt.Sprintf("handle %d (%s) at position %d: Read(%d) returned %d bytes that are not its file[%d:%d] (first difference at +%d) - another handle was used in between", l.h, [...]string{"DATA.BIN", "OTHER.BIN"}[l.h], pos[l.h], l.n, k, pos[l.h], pos[l.h]+int64(k), firstDiff(buf[:k], data[pos[l.h]:pos[l.h]+int64(k)])))
+				}
+			case err != nil && err != io.EOF:
+				if last {
+					add("read|error", fmt.Sprintf("handle %d at %d: %v", l.h, pos[l.h], err))
+				}
+			case rem > 0 && k == 0:
+				if last {
+					add("read|no-progress", fmt.Sprintf("handle %d at %d of %d returned (0, %v)", l.h, pos[l.h], size, err))
+				}
+			case rem == 0 && !(k == 0 && err == io.EOF):
+				if last {
+					add("read|no-eof-at-end", fmt.Sprintf("handle %d at the end returned (%d, %v)", l.h, k, err))
+				}
+			}
+			pos[l.h] += int64(k)
+			if k > 0 {
+				lastBlock[l.h] = (pos[l.h] - 1) / int64(t.C)
+			}
+			switch {
+			case err == io.EOF:
+				out.Class = "read-eof"
+			case int64(k) < lim:
+				out.Class = "read-short"
+			default:
+				out.Class = "read-full"
+			}
+		}
+		out.Key = sha256.Sum256([]byte(fmt.Sprintf("%v|%v", pos, lastBlock)))
+		return out
+	}
+	return explore.Scenario{Name: name, Letters: names, Run: run, MaxDepth: depth, MaxStates: 60000}, nil
+}
+
 func histNames(names []string, h []uint16) []string {
 	o := make([]string, len(h))
 	for i, x := range h {
@@ -437,7 +580,7 @@ func c10Targets(quick bool) []c10Target {
 			}
 		}
 		for _, s := range sizes {
-			ts = append(ts, c10Target{fs.n, s, fs.c})
+			ts = append(ts, c10Target{FS: fs.n, Size: s, C: fs.c})
 		}
 	}
 	return ts
@@ -480,6 +623,31 @@ func C10(r *ev.Run) {
 		for _, s := range st.Samples {
 			r.Sample(map[string]any{"scenario": sc.Name, "history": s})
 		}
+	}
+	// two handles on one filesystem object, used in turns
+	for _, tg := range c10TwoTargets() {
+		if r.OutOfTime() {
+			t.anyCapped = true
+			break
+		}
+		sc, err := tg.twoHandleScenario(64)
+		if err != nil {
+			r.Report("c10|"+tg.FS+"|build-failed|"+firstWords(err.Error()), fmt.Sprintf("cannot build a %s image holding two files: %v", tg.FS, err), tg)
+			continue
+		}
+		st := explore.BFS(prefixedReporter{r, "c10", "readseek"}, sc)
+		t.states += st.States
+		t.transitions += st.Transitions
+		if st.MaxDepth > t.maxDepth {
+			t.maxDepth = st.MaxDepth
+		}
+		if !st.Fixpoint {
+			t.allFix = false
+		}
+		for k, v := range st.Classes {
+			t.classes[k] += v
+		}
+		t.perScen = append(t.perScen, map[string]any{"scenario": sc.Name, "letters": len(sc.Letters), "states": st.States, "transitions": st.Transitions, "depth_completed": st.MaxDepth, "fixpoint": st.Fixpoint})
 	}
 	t.write(r)
 	r.Assume("bytes.Reader semantics are the specification of Read/Seek; a state is (cursor, closed, kind of last call, block the last data-returning Read ended in - handles cache their last block); exploration stops expanding a state whose cursor is more than two blocks past EOF")
